@@ -57,15 +57,20 @@ impl<F> PinSlotMap<F> {
     /// Removes a key from the slot map
     pub fn remove(&mut self, key: usize) {
         let free_head = self.free_head;
-        let Some(mut slot) = self.get_slot(key) else {
+        let Some(slot) = self.get_slot(key) else {
             return;
         };
         if let Slot::NextFree(_) = &*slot {
             return; // don't update if this slot is already free
         }
-        slot.set(Slot::NextFree(free_head));
+        // Update the free list and the count before the value is dropped: should its destructor
+        // panic, the slot is vacated all the same (the assignment below still completes while
+        // unwinding), and the map must not go on counting it or lose the slot.
         self.free_head = key;
         self.filled -= 1;
+        if let Some(mut slot) = self.get_slot(key) {
+            slot.set(Slot::NextFree(free_head));
+        }
     }
 
     fn get_slot(&mut self, key: usize) -> Option<Pin<&mut Slot<F>>> {
